@@ -47,7 +47,19 @@ HANDLERS = ['ignore', 'map', 'router', 'none']
 TAILS = ['nothing', 'to_list', 'scan', 'count']
 
 
-SHARED = {'on': False, 'exc': None}
+class BoomDeep(Boom, RecursionError):
+    """what a recursive user function raises on one deeply nested record"""
+
+
+class BoomAttr(Boom):
+    """exceptions with EQUAL type and args that differ in an attribute only (as OSError.filename does)"""
+
+    def __init__(self, tag):
+        Exception.__init__(self, 'bad row')
+        self.tag = tag
+
+
+SHARED = {'on': False, 'exc': None, 'cls': None}
 
 
 def boom(tag):
@@ -56,7 +68,7 @@ def boom(tag):
         if SHARED['exc'] is None:
             SHARED['exc'] = Boom('shared')
         return SHARED['exc']
-    return Boom(tag)
+    return (SHARED.get('cls') or Boom)(tag)
 
 
 def failing_op(op):
@@ -207,6 +219,7 @@ def run(case):
     op, handler, tail, driver = case['op'], case['handler'], case['tail'], case['driver']
     MAPVAL[0] = case.get('mapval', 'tagged')
     SHARED['on'], SHARED['exc'] = bool(case.get('shared_exc')), None
+    SHARED['cls'] = {'deep': BoomDeep, 'attr': BoomAttr}.get(case.get('exc_kind'))
     shared = SHARED['on']
     outer = bool(case.get('outer')) and case['driver'] == 'grouped' and case['handler'] != 'none'
     items = [(k, v, bool(f), n) for n, (k, v, f) in enumerate(case['items'])]
@@ -383,7 +396,7 @@ def case_gen(draw):
     return {'op': op, 'handler': draw(st.sampled_from(HANDLERS)), 'tail': tail, 'driver': driver, 'items': items,
             'outer': driver == 'grouped' and draw(st.integers(0, 3)) == 0,
             'mapval': draw(st.sampled_from(['tagged', 'tagged', 'none', 'zero', 'false', 'empty', 'exc'])),
-            'post': draw(st.booleans()), 'late_dead': draw(st.booleans()), 'dead_take': draw(st.integers(0, 3)) == 0,
+            'post': draw(st.booleans()), 'late_dead': draw(st.booleans()), 'dead_take': draw(st.integers(0, 3)) == 0, 'exc_kind': draw(st.sampled_from([None, None, 'deep', 'attr'])),
             'shared_exc': draw(st.integers(0, 3)) == 0}
 
 
@@ -411,7 +424,8 @@ def malformed_case(draw):
 def run_malformed(case):
     """starmap over items that cannot be star-applied (None, a scalar, a tuple of the wrong arity): calling the user
     function on them raises, which is an item-level error like any other: one mux error in place, the rest continues."""
-    SHARED['on'] = False
+    SHARED["on"] = False
+    SHARED["cls"] = None
     items = [tuple(i) if isinstance(i, list) else i for i in case['items']]
     handler = case['handler']
     good = lambda i: isinstance(i, tuple) and len(i) == 2
@@ -462,6 +476,7 @@ def run_second(case):
     """The same router and the same pipeline serve a second stream after the first one ended: errors are routed again,
     the dead-letter observable receives them and completes again."""
     SHARED['on'] = False
+    SHARED['cls'] = None
     items = [(0, v, bool(f), n) for n, (v, f) in enumerate(case['items'])]
     errors, route = rs.error.create_error_router()
     inner = [failing_op(case['op']), route()]
